@@ -644,6 +644,9 @@ def build_scene(spec: dict, apply: bool = True, material_arrays: dict | None = N
         # small or homogeneous cross-section; that is no property of fdtdx: the scene counts as rejected
         if "ARPACK" in str(e) or "ArpackError" in repr(e):
             raise NotImplementedError("scene rejected: external mode solver (ARPACK) did not converge") from None
+        if "the TFSF box supports only" in str(e) or "not yet supported" in str(e):
+            # documented refusal of a construct the library does not support (e.g. a TFSF box next to a phase-shifted Bloch axis)
+            raise NotImplementedError("scene rejected by the library: " + str(e).strip().splitlines()[-1][:160]) from None
         raise
 
     if mats["mode"] == "random":
